@@ -140,7 +140,7 @@ def make(topology='chain', hier='flat', kinds=None, partials='dense', palette=0,
                 ishape = list(rshape) if first.get('keep_shape', True) else [n]
             else:
                 ishape = list(sshape)
-            if not ishape:
+            if not ishape and chain:
                 ishape = [1]
             feedback = s in pos_of and pos_of[s] >= ci
             scale = 0.03125 if feedback else 0.25
@@ -242,6 +242,7 @@ KIND_PROFILES = {
 # wiring of p -> c1.x0: (p_shape, how, chain (root first), auto)
 WIRINGS = {
     'plain': dict(p_shape=(3,), first=None),
+    'scalar0d': dict(p_shape=(), first=None),
     'conn_list': dict(p_shape=(4,), first=dict(how='connect', chain=[([3, 0, 1], False)])),
     'conn_neg': dict(p_shape=(4,), first=dict(how='connect', chain=[([-1, 0, -3], False)])),
     'conn_dup': dict(p_shape=(4,), first=dict(how='connect', chain=[([0, 0, 2], False)])),
